@@ -1,7 +1,7 @@
 /-
 Model of `deap/tools/support.py` `Statistics`, `MultiStatistics`, `Logbook` (C18), transcribed
 from the tree as it is now (with the repairs F3 slice deletion, F4 negative `pop`, F12 empty
-logbook text, F18 `pop` also pops the chapters).  Import-free.
+logbook text, F18 `pop` also pops the chapters, F5 `header_streamed`).  Import-free.
 
 Names (dictionary keys, chapter names) are numbers, scalar values are integers.  A Python `dict`
 is an association list with unique keys in insertion order; every observation the property makes
@@ -42,19 +42,22 @@ def Entry.scalars : Entry → Row | .mk s _ => s
 def Entry.dicts : Entry → List (Name × Entry) | .mk _ d => d
 
 /-- `Logbook` (support.py:259-333): the list items, `chapters` (a `defaultdict(Logbook)`, in
-creation order), `buffindex`, `header`, `log_header`.  `columns_len` only affects column widths. -/
+creation order), `buffindex`, `header`, `log_header`, and `header_streamed` (set by `stream`, absent = False).
+`columns_len` only affects column widths. -/
 inductive LB where
   | mk (rows : List Row) (chapters : List (Name × LB)) (buffindex : Nat)
-       (header : Option (List Name)) (logHeader : Bool)
+       (header : Option (List Name)) (logHeader : Bool) (headerStreamed : Bool)
 
 namespace LB
-def rows : LB → List Row | .mk r _ _ _ _ => r
-def chapters : LB → List (Name × LB) | .mk _ c _ _ _ => c
-def buffindex : LB → Nat | .mk _ _ b _ _ => b
-def header : LB → Option (List Name) | .mk _ _ _ h _ => h
-def logHeader : LB → Bool | .mk _ _ _ _ l => l
+def rows : LB → List Row | .mk r _ _ _ _ _ => r
+def chapters : LB → List (Name × LB) | .mk _ c _ _ _ _ => c
+def buffindex : LB → Nat | .mk _ _ b _ _ _ => b
+def header : LB → Option (List Name) | .mk _ _ _ h _ _ => h
+def logHeader : LB → Bool | .mk _ _ _ _ l _ => l
+/-- `getattr(self, "header_streamed", False)`: the stream has already delivered the header -/
+def headerStreamed : LB → Bool | .mk _ _ _ _ _ s => s
 /-- `Logbook()` (support.py:273-331) -/
-def empty : LB := .mk [] [] 0 none true
+def empty : LB := .mk [] [] 0 none true false
 end LB
 
 /-- `self.chapters[key]` replaced by `g` of it; the `defaultdict` creates an empty `Logbook` on
@@ -71,11 +74,11 @@ mutual
 updated by `inherit` (the `apply_to_all` of the enclosing logbook: `chapter_infos = value.copy();
 chapter_infos.update(apply_to_all)`, :343-344; `inherit = []` for the call made by the user). -/
 def recordAux (inherit : Row) : Entry → LB → LB
-  | .mk sc dicts, .mk rows chs b h lh =>
+  | .mk sc dicts, .mk rows chs b h lh hs =>
       -- the non-dict items of `infos` = `apply_to_all` (:340); also what remains of `infos`
       -- after the dict-valued items were deleted (:346), i.e. the appended row (:347)
       let all := dictUpdate sc inherit
-      .mk (rows ++ [all]) (recordDicts all inherit dicts chs) b h lh
+      .mk (rows ++ [all]) (recordDicts all inherit dicts chs) b h lh hs
 /-- the loop :341-346 over the dict-valued items; an item whose key was overwritten by an
 inherited scalar (`update`) is no longer a dict -/
 def recordDicts (all inherit : Row) : List (Name × Entry) → List (Name × LB) → List (Name × LB)
@@ -103,24 +106,24 @@ def select (names : List Name) (lb : LB) : Sel :=
   | [n] => .single (column lb n)                      -- :377-378
   | ns => .multi (ns.map (column lb))                 -- :379
 
-/-- `index + len(self) if index < 0 else index` (support.py:419). -/
+/-- `index + len(self) if index < 0 else index` (support.py:422). -/
 def position (len : Nat) (index : Int) : Int := if index < 0 then index + len else index
 
 mutual
-/-- `Logbook.pop(index)` (support.py:406-424).  Returns the removed row, or `none` for an
-`IndexError`.  Order of the code: the `buffindex` adjustment (:420-421), then `chapter.pop(index)`
-for every chapter (:422-423; chapters are logbooks, so this recurses; the first chapter that
-raises leaves the later chapters and the list itself untouched), then `list.pop` (:424). -/
+/-- `Logbook.pop(index)` (support.py:409-427).  Returns the removed row, or `none` for an
+`IndexError`.  Order of the code: the `buffindex` adjustment (:423-424), then `chapter.pop(index)`
+for every chapter (:425-426; chapters are logbooks, so this recurses; the first chapter that
+raises leaves the later chapters and the list itself untouched), then `list.pop` (:427). -/
 def pop (index : Int) : LB → Option Row × LB
-  | .mk rows chs b h lh =>
-      let pos := position rows.length index                                  -- :419
-      let b' := if 0 ≤ pos ∧ pos < (b : Int) then b - 1 else b               -- :420-421
-      match popChapters index chs with                                       -- :422-423
-      | (chs', true) => (none, .mk rows chs' b' h lh)
+  | .mk rows chs b h lh hs =>
+      let pos := position rows.length index                                  -- :422
+      let b' := if 0 ≤ pos ∧ pos < (b : Int) then b - 1 else b               -- :423-424
+      match popChapters index chs with                                       -- :425-426
+      | (chs', true) => (none, .mk rows chs' b' h lh hs)
       | (chs', false) =>
-        if 0 ≤ pos ∧ pos < (rows.length : Int) then                          -- :424 list.pop
-          (rows[pos.toNat]?, .mk (rows.eraseIdx pos.toNat) chs' b' h lh)
-        else (none, .mk rows chs' b' h lh)
+        if 0 ≤ pos ∧ pos < (rows.length : Int) then                          -- :427 list.pop
+          (rows[pos.toNat]?, .mk (rows.eraseIdx pos.toNat) chs' b' h lh hs)
+        else (none, .mk rows chs' b' h lh hs)
 /-- `for chapter in self.chapters.values(): chapter.pop(index)`; the flag says that a chapter
 raised `IndexError`. -/
 def popChapters (index : Int) : List (Name × LB) → List (Name × LB) × Bool
@@ -131,7 +134,7 @@ def popChapters (index : Int) : List (Name × LB) → List (Name × LB) × Bool
       | (some _, ch') => let r := popChapters index rest; ((k, ch') :: r.1, r.2)
 end
 
-/-- `del logbook[key]` for an integer key (support.py:403-404): `self.pop(key)`; `true` = `IndexError`. -/
+/-- `del logbook[key]` for an integer key (support.py:406-407): `self.pop(key)`; `true` = `IndexError`. -/
 def delIndex (key : Int) (lb : LB) : LB × Bool :=
   match pop key lb with
   | (none, lb') => (lb', true)
@@ -148,7 +151,7 @@ def sortDesc : List Nat → List Nat
   | [] => []
   | x :: xs => insertDesc x (sortDesc xs)
 
-/-- the loop of the slice branch (support.py:401-402) over the sorted indices -/
+/-- the loop of the slice branch (support.py:404-405) over the sorted indices -/
 def delEach : List Nat → LB → LB × Bool
   | [], lb => (lb, false)
   | i :: is, lb =>
@@ -156,39 +159,43 @@ def delEach : List Nat → LB → LB × Bool
       | (lb', true) => (lb', true)
       | (lb', false) => delEach is lb'
 
-/-- `del logbook[slice]` (support.py:400-402); `idx` is `range(*key.indices(len(self)))` as
+/-- `del logbook[slice]` (support.py:403-405); `idx` is `range(*key.indices(len(self)))` as
 computed by Python. -/
 def delSlice (idx : List Nat) (lb : LB) : LB × Bool := delEach (sortDesc idx) lb
 
-/-- What `__txt__(startindex)` emits (support.py:426-483): nothing for an empty logbook (:427-428);
-otherwise the rows from `startindex` on (:444) and, iff `startindex == 0 and self.log_header`
-(:457), a header. -/
+/-- What `__txt__(startindex, header)` emits (support.py:429-486): nothing for an empty logbook
+(:430-431); otherwise the rows from `startindex` on (:447) and, iff
+`header and startindex == 0 and self.log_header` (:460), a header. -/
 structure Text where
   header : Bool
   rows : List Row
 deriving DecidableEq, Repr
 
-def txt (startindex : Nat) (lb : LB) : Text :=
+def txt (startindex : Nat) (header : Bool) (lb : LB) : Text :=
   if lb.rows.length = 0 then ⟨false, []⟩
-  else ⟨startindex == 0 && lb.logHeader, lb.rows.drop startindex⟩
+  else ⟨header && startindex == 0 && lb.logHeader, lb.rows.drop startindex⟩
 
-/-- `logbook.stream` (support.py:381-397): `startindex, self.buffindex = self.buffindex, len(self)`. -/
+/-- `logbook.stream` (support.py:381-400): `startindex, self.buffindex = self.buffindex, len(self)`,
+the text is `__txt__(startindex, not header_streamed)` (:397), and `header_streamed` becomes true
+`if startindex == 0 and len(self) > 0 and self.log_header` (:398-399). -/
 def stream : LB → Text × LB
-  | .mk rows chs b h lh => (txt b (.mk rows chs b h lh), .mk rows chs rows.length h lh)
+  | .mk rows chs b h lh hs =>
+      (txt b (!hs) (.mk rows chs b h lh hs),
+       .mk rows chs rows.length h lh (hs || (b == 0 && decide (0 < rows.length) && lh)))
 
-/-- `str(logbook)` = `__str__(0)` (support.py:485-487). -/
-def str (lb : LB) : Text := txt 0 lb
+/-- `str(logbook)` = `__str__(0)` = `__txt__(0)` with the default `header=True` (support.py:488-490). -/
+def str (lb : LB) : Text := txt 0 true lb
 
 def setHeader (hd : Option (List Name)) : LB → LB
-  | .mk rows chs b _ lh => .mk rows chs b hd lh
+  | .mk rows chs b _ lh hs => .mk rows chs b hd lh hs
 
 def setLogHeader (flag : Bool) : LB → LB
-  | .mk rows chs b h _ => .mk rows chs b h flag
+  | .mk rows chs b h _ hs => .mk rows chs b h flag hs
 
 /-- `pickle.loads(pickle.dumps(logbook))`: the class is re-created without `__init__`, the list
-items are appended and `__dict__` (buffindex, chapters, header, log_header) is restored. -/
+items are appended and `__dict__` (buffindex, chapters, header, log_header, header_streamed) is restored. -/
 def pickle : LB → LB
-  | .mk rows chs b h lh => .mk rows chs b h lh
+  | .mk rows chs b h lh hs => .mk rows chs b h lh hs
 
 /-- the chapter reached by following `path` (only existing chapters; `logbook.chapters[name]`) -/
 def chapterAt : List Name → LB → Option LB
